@@ -370,8 +370,17 @@ CtlActs2 == { <<ACtlRmId(25)>>, <<ACtlRmRange(25, 30)>>, <<ACtlRmRange(22, 27), 
               <<ACtlRmTgt(60, "ARGS_GET", SelAll)>>, <<ACtlRmTgt(60, "ARGS_GET", SelKey(s_a))>> }
 DirReqs2 == {ReqOfEntries(S) : S \in SUBSET {E("ARGS_GET", s_a, s_x), E("ARGS_GET", s_b, s_x), E("ARGS_GET", s_A, s_x), E("ARGS_GET", s_cc, s_1)}}
 Pass1 == <<A("pass")>>
+\* a removal followed by an update that names ids, removed ones among them (both tiers): the update reaches the rules
+\* that still exist and no other
+ListIdSets == {z \in DirIdSets : z.ids # << >>}
+Removals3 == {d \in Directives : d.d \in {"SecRuleRemoveById", "SecRuleRemoveByTag", "SecRuleRemoveByMsg"}}
+Updates3 == {[WithIds(Dir("SecRuleUpdateTargetById"), z) EXCEPT !.tgts = tg] : z \in ListIdSets, tg \in {<<T("ARGS_POST")>>, <<OnlyExcl("ARGS_GET", SelKey(s_a))>>}}
+            \cup {[WithIds(Dir("SecRuleUpdateActionById"), z) EXCEPT !.acts = ac] : z \in ListIdSets, ac \in {<<A("pass")>>, <<A("deny")>>}}
+DirReqs3 == {ReqOfEntries({E("ARGS_GET", s_a, s_x), E("ARGS_GET", s_b, s_x), E("ARGS_POST", s_a, s_x), E("ARGS_GET", s_cc, s_1)}),
+             ReqOfEntries({E("ARGS_GET", s_a, s_x), E("ARGS_POST", s_a, s_x)}), ReqOfEntries({E("ARGS_GET", s_b, s_x)})}
 DirPicks(two, slice, slices) ==
   [kind : {"dir"}, d1 : SliceOf(Directives, slice, slices), d2 : IF two THEN Directives \cup {Dir("")} ELSE {Dir("")}, ctl : {A("pass")}, ctls : {Pass1}, pos : {0}, rq : DirReqs]
+  \cup [kind : {"dir"}, d1 : SliceOf(Removals3, slice, slices), d2 : Updates3, ctl : {A("pass")}, ctls : {Pass1}, pos : {0}, rq : DirReqs3]
   \cup [kind : {"ctl"}, d1 : {Dir("")}, d2 : {Dir("")}, ctl : SliceOf(CtlActs, slice, slices), ctls : {Pass1}, pos : {0, 2}, rq : DirReqs]
   \cup [kind : {"dir2"}, d1 : SliceOf(Directives2, slice, slices), d2 : {Dir("")}, ctl : {A("pass")}, ctls : {Pass1}, pos : {0}, rq : DirReqs2]
   \cup [kind : {"ctl2"}, d1 : {Dir("")}, d2 : {Dir("")}, ctl : {A("pass")}, ctls : SliceOf(CtlActs2, slice, slices), pos : {0}, rq : DirReqs2]
